@@ -37,9 +37,12 @@ var readOnlyCalls = []readOnly{
 	{"Yaml(MULTISET)", func(A, B jd.JsonNode, d jd.Diff, _ []jd.Option) string {
 		return A.Yaml(jd.MULTISET) + "|" + B.Yaml(jd.MULTISET)
 	}},
+	{"Render(opts)", func(A, B jd.JsonNode, d jd.Diff, o []jd.Option) string { return d.Render(o...) }},
 	{"Json(opts)", func(A, B jd.JsonNode, d jd.Diff, o []jd.Option) string { return A.Json(o...) + "|" + B.Json(o...) }},
 	{"Diff", func(A, B jd.JsonNode, d jd.Diff, o []jd.Option) string { return Dump(A.Diff(B, o...)) }},
-	{"Equals", func(A, B jd.JsonNode, d jd.Diff, o []jd.Option) string { return fmt.Sprint(A.Equals(B, o...), B.Equals(A, o...)) }},
+	{"Equals", func(A, B jd.JsonNode, d jd.Diff, o []jd.Option) string {
+		return fmt.Sprint(A.Equals(B, o...), B.Equals(A, o...))
+	}},
 }
 
 var renderers = readOnlyCalls[:5]
@@ -75,7 +78,20 @@ func c15Subj(c *mon.Ctx, i int) (c15Subject, bool) {
 		prof = prof.With(func(p *gen.Profile) { p.Keys = []string{"id", "ID", "Id", "a", "A", "b"}; p.PArr = 0.3 })
 	}
 	a, b := PairFor(r, o, prof)
+	if i%13 == 12 {
+		// numbers within and beyond a tolerance at the same positions of lists and objects
+		o = []OptSet{OptPrecision(0.1), OptMergePrec, OptPrecision(0.5)}[(i/13)%3]
+		prof = gen.PTiny.With(func(p *gen.Profile) { p.Scalars = append(append([]any{}, numbersNear...), "a", true) })
+		a = gen.Doc(r, prof)
+		b = gen.Mutate(r, prof, jitterNumbers(r, a, o.Eps))
+		if r.Chance(0.5) {
+			b = jitterNumbers(r, a, o.Eps)
+		}
+	}
 	s := c15Subject{aText: ref.ToJSON(a), bText: ref.ToJSON(b), o: o, src: "diff"}
+	if o.HasEps {
+		return s, true
+	}
 	switch i % 7 {
 	case 5:
 		t, err := ReadJ(s.aText).Diff(ReadJ(s.bText)).RenderPatch()
@@ -130,17 +146,34 @@ func c15History(c *mon.Ctx, s c15Subject, seq []int) {
 		names[i] = readOnlyCalls[k].name
 	}
 	c.Input("calls", strings.Join(names, ", "))
+	// ONE option slice for the whole history, as a caller holding its options in
+	// a variable would pass it (opts...); half the time it also carries a
+	// render option after the diff options, and spare capacity
+	mkOpts := func() []jd.Option { return s.o.O() }
+	if tail := c.R.Intn(4); tail >= 2 {
+		ro := []jd.Option{jd.COLOR, jd.MERGE}[tail-2]
+		if tail == 2 || s.o.Merge {
+			mkOpts = func() []jd.Option { return append(append(make([]jd.Option, 0, 8), s.o.O()...), ro) }
+			c.Feature("shared_option_slice_with_render_option")
+		}
+	}
 	// reference outputs from values that are never touched by another call
 	refOut := map[int]string{}
 	for _, k := range seq {
 		if _, ok := refOut[k]; !ok {
 			A0, B0, d0, _ := s.build()
-			refOut[k] = readOnlyCalls[k].call(A0, B0, d0, s.o.O())
+			refOut[k] = readOnlyCalls[k].call(A0, B0, d0, mkOpts())
 		}
 	}
+	shared := mkOpts()
+	dumpOpts := Dump(shared)
 	dumpA, dumpB, dumpD := Dump(A), Dump(B), Dump(d)
 	for step, k := range seq {
-		out := readOnlyCalls[k].call(A, B, d, s.o.O())
+		out := readOnlyCalls[k].call(A, B, d, shared)
+		if x := Dump(shared); x != dumpOpts {
+			c.Violation(readOnlyCalls[k].name+" modified the option slice the caller passed (opts...)", map[string]any{"step": step, "options_before": dumpOpts, "options_after": x})
+			return
+		}
 		c.Feature("read_only_calls")
 		c.Feature("call:" + readOnlyCalls[k].name)
 		c.Event()
@@ -180,12 +213,46 @@ func c15History(c *mon.Ctx, s c15Subject, seq []int) {
 			return
 		}
 		c.Feature("patched_after_rendering")
-		if s.src == "diff" && !ref.Eq(Plain(P1), ref.MustJSON(s.bText), s.o.Reading) {
+		sameAsB := ref.Eq(Plain(P1), ref.MustJSON(s.bText), s.o.Reading)
+		if s.o.HasEps {
+			sameAsB = ref.EqPrec(Plain(P1), ref.MustJSON(s.bText), s.o.Eps)
+		}
+		if s.src == "diff" && !sameAsB {
 			c.Violation("after being rendered the diff no longer turns a into b", map[string]any{"patched": P1.Json()})
 			return
 		}
 	}
 	c.Sample(map[string]any{"outputs": refOut[seq[0]]})
+}
+
+// jitterNumbers returns a copy of v in which some numbers moved by less
+// than eps, some by more, and the rest stayed.
+func jitterNumbers(r *gen.RNG, v any, eps float64) any {
+	switch t := v.(type) {
+	case float64:
+		switch r.Intn(4) {
+		case 0:
+			return t + eps*0.4
+		case 1:
+			return t - eps*0.3
+		case 2:
+			return t + eps*2.5
+		}
+		return t
+	case []any:
+		out := make([]any, len(t))
+		for i := range t {
+			out[i] = jitterNumbers(r, t[i], eps)
+		}
+		return out
+	case map[string]any:
+		out := map[string]any{}
+		for _, k := range ref.SortedKeys(t) {
+			out[k] = jitterNumbers(r, t[k], eps)
+		}
+		return out
+	}
+	return v
 }
 
 // all permutations of 0..n-1
@@ -209,11 +276,11 @@ func init() {
 	p := &mon.Property{
 		ID: "C15",
 		Rule: "subjects are (a, b, option set) with the diff from Diff, or a diff read from JSON Patch / JSON Merge Patch text (merge documents with 3-6 keys per level); " +
-			"(1) histories: random sequences (3-10) of the read-only calls Render, Render(COLOR), RenderPatch, RenderMerge, Json, Yaml, Diff, Equals on ONE set of values: every output must equal the output on untouched values, a type-accurate dump (%#v) of a, b and the diff must not change, and the diff must still patch like a never-rendered copy; all 120 orderings of the five renderers on a panel; " +
+			"(1) histories: random sequences (3-10) of the read-only calls Render, Render(COLOR), RenderPatch, RenderMerge, Json, Yaml, Diff, Equals on ONE set of values: every output must equal the output on untouched values (the calls of one history share ONE option slice passed as opts..., half the time with COLOR / MERGE after the diff options and spare capacity, which must come back unchanged; one subject in 13 uses Precision with numbers moved by less and by more than the tolerance), a type-accurate dump (%#v) of a, b and the diff must not change, and the diff must still patch like a never-rendered copy; all 120 orderings of the five renderers on a panel; " +
 			"(2) the same calls issued concurrently by 8 goroutines on shared values under the Go race detector (any report = a write by a read-only API); " +
 			"(3) determinism: each output recomputed 12 times from fresh parses in-process (Go randomises map iteration per range statement) and across 4 fresh processes of the real binary; non-trivial = every subject; distinct = distinct (subject, call sequence)",
 		Floors: map[string]int{"read_only_calls": 100000, "patched_after_rendering": 10000, "call:RenderPatch": 10000, "call:RenderMerge": 10000,
-			"determinism_recomputations": 50000, "race_goroutine_calls": 20000, "cross_process_runs": 400, "src:merge-text": 2000, "src:patch-text": 2000},
+			"determinism_recomputations": 50000, "race_goroutine_calls": 20000, "cross_process_runs": 400, "src:merge-text": 2000, "src:patch-text": 2000, "shared_option_slice_with_render_option": 3000, "opt_precision_subjects": 500},
 		Assumptions: []string{
 			"Patch is not claimed pure (it edits its receiver) and is always applied to a fresh parse",
 			"the race detector only sees writes that actually execute on the generated subjects",
@@ -230,6 +297,9 @@ func init() {
 				return
 			}
 			c.Feature("src:" + s.src)
+			if s.o.HasEps {
+				c.Feature("opt_precision_subjects")
+			}
 			seq := make([]int, c.R.Range(3, 10))
 			for k := range seq {
 				seq[k] = c.R.Intn(len(readOnlyCalls))
